@@ -85,7 +85,13 @@ Definition flen (g : cfg) (p : nat) (c : content) : Z :=
 Definition roundup (x page : Z) : Z := (x + page - 1) / page * page.
 
 (* a proxy copies dtype AND scale factors out of the header when the image is loaded *)
-Inductive src := SArray (v : option nat) | SProxy (p : nat) (d : dtype) (k : nat) (mm : bool).
+Inductive src :=
+| SArray (v : option nat)
+| SProxy (p : nat) (d : dtype) (k : nat) (mm : bool)
+(* an array image whose array IS a live memory map of file p (np.asanyarray(other.dataobj) / other.get_fdata() /
+   a view of one); [cov]: the array is an np.memmap instance with a filename, which is what unmap_if_target
+   recognises - np.asarray(memmap) and memmap.view(np.ndarray) are base-class views and are not *)
+| SMap (p : nat) (d : dtype) (cov : bool).
 Inductive cache := CNone | CCopy (v : option nat) | CAlias (p : nat) (d : dtype).
 Record image := mkI { i_src : src; i_fmt : fmt; i_hdt : dtype; i_aff : nat; i_cache : cache }.
 Record world := mkW { w_fs : list (option content); w_imgs : list (option image); w_dead : bool }.
@@ -121,21 +127,26 @@ Definition alias_read (g : cfg) (fs : list (option content)) (p : nat) (d : dtyp
   match nth (fid g p) fs None with
   | None => RCrash
   | Some c => if roundup (flen g p c) (g_page g) <? needed g p d then RCrash
-              else if dtype_eqb (k_dt c) d then RVal (k_val c) else RVal None
+              else if dtype_eqb (k_dt c) d && negb (is_int d && negb (Nat.eqb (k_scl c) O)) then RVal (k_val c)
+              else RVal None      (* another layout, or raw integers of a scaled file seen without its factors *)
   end.
 
 Definition denote (g : cfg) (fs : list (option content)) (im : image) : rd :=
   match i_src im with
   | SArray v => RVal v
   | SProxy p d k mm => fresh_read g fs p d k
+  | SMap p d _ => alias_read g fs p d
   end.
 
 (* is np.asanyarray(dataobj) a memory map of its file?  (mmap on, plain file) *)
 Definition mapped (g : cfg) (im : image) : option nat :=
   match i_src im with
   | SProxy p d k mm => if mm && negb (pi_gz (pinfo_of g p)) then Some p else None
+  | SMap p _ _ => Some p
   | SArray _ => None
   end.
+(* does unmap_if_target see that the data are mapped?  (isinstance(data, np.memmap) and data.filename) *)
+Definition recognised (im : image) : bool := match i_src im with SMap _ _ cov => cov | _ => true end.
 (* is get_fdata()'s float64 result that very map?  (little-endian float64 on disk: astype(copy=False)
    returns its argument; MGH data are big-endian and always copied) *)
 Definition aliasable (g : cfg) (im : image) : option (nat * dtype) :=
@@ -143,10 +154,16 @@ Definition aliasable (g : cfg) (im : image) : option (nat * dtype) :=
   | SProxy p d k mm =>
     if mm && negb (pi_gz (pinfo_of g p)) && dtype_eqb d F8
        && negb (fmt_eqb (pi_fmt (pinfo_of g p)) Mgh) then Some (p, d) else None
+  | SMap p d _ =>      (* np.asanyarray(arr, dtype=float64) is arr itself for a little-endian float64 map *)
+    if dtype_eqb d F8 && negb (fmt_eqb (pi_fmt (pinfo_of g p)) Mgh) then Some (p, d) else None
   | SArray _ => None
   end.
 
 (* ---- operations *)
+(* which array of the image a new image object is built around *)
+Inductive wrapkind := WAny      (* np.asanyarray(img.dataobj): the np.memmap itself for a mapped proxy *)
+                    | WFdata    (* img.get_fdata(): the map itself for little-endian float64 files, and now cached *)
+                    | WView.    (* np.asarray(img.dataobj): a base-class VIEW of that map *)
 Inductive op :=
 | Load (s p : nat) (mm : bool)
 | Fdata (s : nat)
@@ -158,6 +175,7 @@ Inductive op :=
 | SaveU8 (s p : nat)          (* set_data_dtype(uint8); save; set_data_dtype(back) *)
 | ToFilename (s p : nat)      (* img.to_filename(name): no class conversion, the name must belong to the class *)
 | Clone (s s2 : nat)          (* slot s2 := type(img).from_image(img): a second image object on the SAME dataobj *)
+| Wrap (s s2 : nat) (how : wrapkind)  (* slot s2 := type(img)(ARRAY, img.affine, img.header) *)
 | EditMap (s : nat)           (* a = np.asanyarray(img.dataobj) of a proxy image; a[0,..] += 1 (copy-on-write) *)
 | SaveFull (s : nat)          (* save onto a name of the image's own class that is a link to /dev/full *)
 | ToBytes (s : nat).
@@ -230,7 +248,7 @@ Definition reshaped (g : cfg) (im : image) (tf : fmt) : image :=
   if negb (fmt_eqb (i_fmt im) tf) && fmt_eqb tf Mgh && g_lowdim g && negb (g_reshape_ok g) then
     match i_src im with
     | SProxy p d k mm => mkI (SProxy p d O mm) (i_fmt im) (i_hdt im) (i_aff im) (i_cache im)
-    | SArray _ => im
+    | _ => im
     end
   else im.
 
@@ -254,7 +272,7 @@ Definition written (g : cfg) (tf : fmt) (od : dtype) (v : option nat) (a : nat) 
    object itself - a class conversion saves a converted copy, which is then the one re-pointed *)
 Definition repoints (g : cfg) (im : image) (tf : fmt) (t : nat) : bool :=
   g_repoint g && fmt_eqb (i_fmt im) tf
-  && match i_src im with SProxy p _ _ _ => Nat.eqb (fid g p) (fid g t) | SArray _ => false end.
+  && match i_src im with SProxy p _ _ _ => Nat.eqb (fid g p) (fid g t) | _ => false end.
 (* self._dataobj = data; self.uncache() *)
 Definition repointed (im : image) (v : option nat) : image :=
   mkI (SArray v) (i_fmt im) (i_hdt im) (i_aff im) CNone.
@@ -279,10 +297,10 @@ Definition do_save (g : cfg) (w : world) (s t : nat) (hd : option dtype) : world
         if writer_refuses g tf od then (w, ORefused EWriter) else
         (* unmap_if_target: os.path.samefile - the same FILE, whatever the names *)
         let own_map := match mapped g im with Some p => Nat.eqb (fid g p) (fid g t) | None => false end in
-        if own_map && negb (g_fix g) then
+        if own_map && negb (g_fix g && recognised im) then
           (* without unmap_if_target: the target is opened 'wb' (truncated), the header written,
              then the data are read through the map of that very file *)
-          if roundup (g_off g tf) (g_page g) <? needed g t (match i_src im with SProxy _ d _ _ => d | _ => od end)
+          if roundup (g_off g tf) (g_page g) <? needed g t (match i_src im with SProxy _ d _ _ => d | SMap _ d _ => d | SArray _ => od end)
           then (kill w, OCrash)
           else (mkW (upd (fid g t) (Some (mkK None od (i_aff im) O tf)) (w_fs w)) (w_imgs w) (w_dead w),
                 OSaved t None od (i_aff im) O)
@@ -307,6 +325,48 @@ Definition do_tobytes (g : cfg) (w : world) (s : nat) : world * out :=
       | RRefused => (w, ORefused EShortRead)
       | RCrash => (kill w, OCrash)
       end
+    end
+  end.
+
+(* the array a new image is wrapped around *)
+Definition wrapped_src (g : cfg) (im : image) (how : wrapkind) (v : option nat) : src :=
+  match i_src im with
+  | SArray _ => SArray v                       (* the same in-memory array (or a float64 copy of it) *)
+  | SMap p d c =>
+    match how with
+    | WAny => SMap p d c
+    | WView => SMap p d false
+    | WFdata => match aliasable g im with Some _ => SMap p d c | None => SArray v end
+    end
+  | SProxy p d k mm =>
+    (* a mapped proxy gives the map itself unless scale factors are applied (a new array then) *)
+    if mm && negb (pi_gz (pinfo_of g p)) && negb (is_int d && negb (Nat.eqb k O)) then
+      match how with
+      | WAny => SMap p d true
+      | WView => SMap p d false
+      | WFdata => match aliasable g im with Some _ => SMap p d true | None => SArray v end
+      end
+    else SArray v
+  end.
+
+Definition do_wrap (g : cfg) (w : world) (s s2 : nat) (how : wrapkind) : world * out :=
+  match img_at w s with
+  | None => (w, ORefused ENoImage)
+  | Some im =>
+    if negb (s2 <? length (w_imgs w))%nat then (w, ORefused ENoImage) else
+    (* get_fdata() goes through (and fills) the source image's cache; the other two read the dataobj *)
+    let '(w1, r) := match how with
+                    | WFdata => match do_fdata g w s with
+                                | (w1, OVal v) => (w1, RVal v)
+                                | (w1, OCrash) => (w1, RCrash)
+                                | (w1, _) => (w1, RRefused)
+                                end
+                    | _ => (w, denote g (w_fs w) im)
+                    end in
+    match r with
+    | RVal v => (set_img w1 s2 (mkI (wrapped_src g im how v) (i_fmt im) (i_hdt im) (i_aff im) CNone), ODone)
+    | RRefused => (w1, ORefused EShortRead)
+    | RCrash => (kill w, OCrash)
     end
   end.
 
@@ -353,12 +413,13 @@ Definition step (g : cfg) (w : world) (o : op) : world * out :=
         (set_img w s2 (mkI (i_src im) (i_fmt im) (i_hdt im) (i_aff im) CNone), ODone)
       else (w, ORefused ENoImage)
     end
+  | Wrap s s2 how => do_wrap g w s s2 how
   | EditMap s =>
     match img_at w s with
     | None => (w, ORefused ENoImage)
     | Some im =>
       match i_src im with
-      | SArray _ => (w, ODone)                      (* not applied to array images *)
+      | SArray _ | SMap _ _ _ => (w, ODone)         (* not applied to array images *)
       | SProxy _ _ _ _ =>
         (* a fresh array (a private copy-on-write map or an in-memory read): the edit reaches neither
            the file nor the image *)
